@@ -186,6 +186,9 @@ class C08(Property):
         "Flatland.C08.Proofs.allChildren_hrun",
         "Flatland.C08.Proofs.removed_unreachable",
         "Flatland.C08.Proofs.nodeStep_removed",
+        "Flatland.C08.Proofs.detached_unreachable",
+        "Flatland.C08.Proofs.seqStep_det",
+        "Flatland.C08.Proofs.mapStep_det",
         "Flatland.C08.Proofs.placed_is_child",
         "Flatland.C08.Proofs.nodeStep_placed",
         "Flatland.C08.Proofs.seqStep_placed",
@@ -212,7 +215,9 @@ class C08(Property):
                   "them, membership <-> reachable through children and not the root; removed_unreachable — a child of the "
                   "target container before a call that is not a child of it afterwards occurs nowhere in the tree afterwards "
                   "(the oracle's clause, for every call, raising or not: pop, del, remove, slice deletion, clear, replacement "
-                  "by item/slice assignment, set rebuilding members, *= 0 are instances); placed_is_child — every Element a "
+                  "by item/slice assignment, set rebuilding members, *= 0 are instances); detached_unreachable — the same named "
+                  "by the call: what the model reports as having left the container (popped / deleted / replaced / cleared "
+                  "members, with everything below them) occurs nowhere in the tree afterwards; placed_is_child — every Element a "
                   "normally returning call stores (all placing sequence calls; SparseDict item assignment / update of an element "
                   "of the declared field class, for update the one given last per key) is afterwards a direct child of the "
                   "target with the same identity and subtree, its stored parent pointer designating the container (through a "
